@@ -769,6 +769,10 @@ pub fn gen_xcase(rng: &mut Rng, prop: &str, seed: u64, with_faults: bool, thorou
         if buf < 4 {
             buf = 4; // every N in 1..=4 must fit
         }
+        if rng.chance(1, 80) {
+            // a full-frame staging buffer (more than 65535 pixels fit)
+            buf = *rng.pick(&[131_072u32, 131_074, 153_600, 196_608, 262_144]);
+        }
         XKind::Spi { buf }
     } else {
         match rng.below(4) {
@@ -886,6 +890,9 @@ pub fn gen_xcase(rng: &mut Rng, prop: &str, seed: u64, with_faults: bool, thorou
                             _ => rng.below(4 * cap + 4),
                         };
                         let mut count = count.min(3000) as u32;
+                        if matches!(kind, XKind::Spi { buf } if buf >= 100_000) {
+                            count = *rng.pick(&[1u32, 1000, 65_535, 65_536, 65_537, 76_800, 100_000]);
+                        }
                         if thorough && matches!(kind, XKind::Spi { buf } if buf >= 256) && rng.chance(1, 50) {
                             count = 100_000 + rng.below(900_000) as u32;
                         }
